@@ -223,9 +223,47 @@ func init() {
 		res.Rule = "random trees (depth<=5/7, 1-6 distinct valid terms of every kind, random parenthesisation and spacing) x allowed lists built from the terms, related spellings/versions and unrelated entries; plus systematic shapes and all shapes up to 4/5 leaves x every non-empty subset of the terms. Non-trivial & distinct = (tree shape, leaf truth vector) of a non-leaf tree"
 		c01LongAlternatives()
 		c01OneLicenceManySpellings()
+		c01TrivialTrees()
 		runTreeProperty(c01Check, scale(12000, 300000), scale(5, 7), scale(4, 5))
 	}
 	replays["C01"] = func(k *kase) *failure { return c01Check(k, false) }
+}
+
+// c01TrivialTrees: the trivial Boolean functions (one leaf; one AND; one OR) over the ends of every version family and
+// over every deprecated id, with '+', compared with the model's Satisfies — the Boolean reading bottoms out in single terms,
+// and a term that loses its '+' or its family changes the value of every expression it stands in
+func c01TrivialTrees() {
+	var pairs [][2]string
+	for _, f := range tblRanges {
+		lo, hi := f[0][0], f[len(f)-1][len(f[len(f)-1])-1]
+		mid := f[len(f)/2][0]
+		pairs = append(pairs, [2]string{lo, hi}, [2]string{hi, lo}, [2]string{lo, mid}, [2]string{mid, hi})
+	}
+	for _, d := range tblDeprecated {
+		d = strings.TrimSuffix(d, "+")
+		fam := sameFamilyIDs(d)
+		if len(fam) > 0 {
+			pairs = append(pairs, [2]string{d, pick(fam)}, [2]string{pick(fam), d})
+		} else {
+			pairs = append(pairs, [2]string{d, d})
+		}
+	}
+	for _, p := range pairs {
+		a, b := strings.TrimSuffix(p[0], "+"), strings.TrimSuffix(p[1], "+")
+		for _, sp := range [][2]string{{a + "+", b}, {a, b + "+"}, {a + "+", b + "+"}, {a + "-or-later", b + "-or-later"}, {a + "-only+", b + "-or-later"}} {
+			if !implValid(sp[0]) || !implValid(sp[1]) {
+				continue
+			}
+			for _, e := range []string{sp[0], sp[0] + " AND MIT", "ISC OR " + sp[0]} {
+				l := []string{sp[1], "MIT"}
+				r := implSat(e, l)
+				res.Evaluations++
+				count("trivial_trees")
+				correspond("S "+hx(e)+" "+hxl(l), r.String(), "Satisfies on a trivial tree over family ends / deprecated ids: model vs implementation", &kase{Expr: e, ExprHex: hx(e), Allowed: l})
+			}
+		}
+	}
+	flushCorr()
 }
 
 // c01OneLicenceManySpellings: ONE version of one licence in several of its spellings and decorations (X, X-only, X+,
